@@ -1,0 +1,60 @@
+//go:build verif
+
+package types
+
+import "github.com/lyraproj/pcore/px"
+
+// Verification hook (build tag `verif` only, add-only): the direct sub-types of a type and the direct
+// sub-values of a value, in the order in which VerifDecodeType / VerifDecodeValue list them (Keys first,
+// then Ts), so that the harness can relate a decoded node to the real object it was decoded from.
+
+func VerifSubTypes(t px.Type) []px.Type {
+	switch t := t.(type) {
+	case *ArrayType:
+		return []px.Type{t.typ}
+	case *HashType:
+		return []px.Type{t.keyType, t.valueType}
+	case *TupleType:
+		return append([]px.Type{}, t.types...)
+	case *StructType:
+		r := make([]px.Type, 0, 2*len(t.elements))
+		for _, e := range t.elements {
+			r = append(r, e.key)
+		}
+		for _, e := range t.elements {
+			r = append(r, e.value)
+		}
+		return r
+	case *VariantType:
+		return append([]px.Type{}, t.types...)
+	case *OptionalType:
+		return []px.Type{t.typ}
+	case *NotUndefType:
+		return []px.Type{t.typ}
+	case *TypeType:
+		return []px.Type{t.typ}
+	case *SensitiveType:
+		return []px.Type{t.typ}
+	case *IterableType:
+		return []px.Type{t.typ}
+	}
+	return nil
+}
+
+func VerifSubValues(v px.Value) []px.Value {
+	switch v := v.(type) {
+	case *Array:
+		return append([]px.Value{}, v.elements...)
+	case *Hash:
+		r := make([]px.Value, 0, 2*len(v.entries))
+		for _, e := range v.entries {
+			r = append(r, e.key, e.value)
+		}
+		return r
+	case *HashEntry:
+		return []px.Value{v.key, v.value}
+	case *Sensitive:
+		return []px.Value{v.Value}
+	}
+	return nil
+}
